@@ -137,7 +137,10 @@ class Check:
             self.evaluations += 1
             self.stats[stream][f"fmt:{fmt}"] += 1
             self.stats[stream][f"out:{ot}"] += 1
-            if alg.relation:
+            if alg.unmodelled and alg.unmodelled(case, fmt):
+                want, same = {"unmodelled": True}, True
+                self.stats[stream]["unmodelled"] += 1
+            elif alg.relation:
                 want = ans
                 same = alg.relation(case, fmt, ot, got, ans, by_id)
             else:
@@ -151,6 +154,38 @@ class Check:
                 for line, pred in judge(case, fmt, ot, got, names, ans):
                     pending.append((line, pred, (case, fmt, ot, got)))
         self.run_pending(pending)
+
+    def direct(self, stream, triples, nontrivial=None):
+        """correspondence for direct calls (objectives, bounds, enumerators, manager operations):
+        triples = [(request line, thunk calling the implementation -> canonical value, label dict)]"""
+        triples = list(triples)
+        if not triples:
+            return
+        answers = model_query([t[0] for t in triples])
+        for (line, thunk, label), ans in zip(triples, answers):
+            if isinstance(ans, dict) and "bad" in ans:
+                raise InfraError(f"driver rejected request {line!r}: {ans}")
+            try:
+                got = thunk()
+            except Exception as e:  # noqa
+                got = {"error": exc_name(e)}
+            self.evaluations += 1
+            self.corr_cases += 1
+            self.stats[stream]["cases"] += 1
+            self.distinct.add(line)
+            if nontrivial is None or nontrivial(label, ans):
+                self.nontrivial.add(line)
+            if got != ans:
+                self.disagreements.append({"stream": stream, "alg": label.get("alg", stream), "case": {"vals": label.get("vals", []), "p": label},
+                                           "fmt": "direct", "outtype": "-", "impl": got, "model": ans, "request": line})
+            self.sample({"request": line, "impl": got, "model": ans})
+
+    def check_direct(self, alg, label, kind, ok, observed, expected):
+        """a property evaluated directly on an implementation result (label = the call, for the replay)"""
+        self.stats["direct-evaluation"]["evaluations"] += 1
+        if not ok:
+            self.fail(alg, {"alg": alg, "vals": label.get("vals", []), "p": label}, label.get("fmt", "direct"), label.get("outtype", "-"),
+                      kind, observed, expected)
 
     def run_pending(self, pending):
         if not pending:
@@ -217,7 +252,7 @@ class Check:
             "trusted_base": TRUSTED_BASE + self.assumptions,
             "theorems": aud["theorems"], "stated_not_proven": aud["stated_not_proven"],
             "forbidden_construct_hits": aud["forbidden_hits"],
-            "evaluations": self.evaluations + self.stats["certified"]["evaluations"],
+            "evaluations": self.evaluations + self.stats["certified"]["evaluations"] + self.stats["direct-evaluation"]["evaluations"],
             "distinct_nontrivial": len(self.nontrivial), "distinct_inputs": len(self.distinct),
             "rule": self.rule,
             "samples": self.samples,
@@ -238,6 +273,11 @@ class Check:
               "wall_s": round(time.time() - self.t0, 2), "violations": len(violations)}
         with open(os.path.join(VERIF, "evidence", f"{self.pid}.json"), "w") as f:
             json.dump(ev, f, indent=1, default=str)
+        for d in self.disagreements[:5]:
+            print(f"  disagreement [{d['stream']}] {d['request']} fmt={d['fmt']} out={d['outtype']}: impl={json.dumps(d['impl'], default=str)[:300]} "
+                  f"model={json.dumps(d['model'], default=str)[:300]}", file=sys.stderr)
+        for f in self.failures[:5]:
+            print(f"  property failure [{f['alg']}] {json.dumps(f['case'])[:300]} fmt={f['fmt']}: {f['kind']}: {f['expected']} observed={json.dumps(f['observed'], default=str)[:300]}", file=sys.stderr)
         for v in violations:
             print(v)
         print(f"[{self.pid}] tier={self.tier} seed={self.seed} corr_cases={self.corr_cases} impl_calls={self.evaluations} "
